@@ -579,9 +579,9 @@ package collection
 //@   props C02 C17 C18
 //@   implements Sequential.GetIterator
 
-//@ lemma[C02,C15] smem_snoc: forall c U, s Seq, p Int, y U :: 0 <= p && p < len(s) ==> (smem(c, s[0:p+1], y) <==> smem(c, s[0:p], y) || rank(c, y, s[p]) == 1)
-//@ lemma[C02,C15] smem_take_all: forall c U, s Seq, y U :: smem(c, s[0:len(s)], y) <==> smem(c, s, y)
-//@ lemma[C02,C15] smem_take_none: forall c U, s Seq, y U :: !smem(c, s[0:0], y)
+//@ lemma[C02,C15] smem_snoc: forall c U, s Seq, p Int, q Int, y U :: { smem(c, s[0:q], y), s[0:p] } q == p + 1 && 0 <= p && p < len(s) ==> (smem(c, s[0:q], y) <==> smem(c, s[0:p], y) || rank(c, y, s[p]) == 1)
+//@ lemma[C02,C15] smem_take_all: forall c U, s Seq, p Int, y U :: { smem(c, s[0:p], y) } p == len(s) ==> (smem(c, s[0:p], y) <==> smem(c, s, y))
+//@ lemma[C02,C15] smem_take_none: forall c U, s Seq, p Int, y U :: { smem(c, s[0:p], y) } p == 0 ==> !smem(c, s[0:p], y)
 //@ lemma[C02,C15] smem_empty: forall c U, y U :: !smem(c, empty(), y)
 
 //@ iface SetLike.AddValues
@@ -884,9 +884,9 @@ package collection
 //@   props C14 C17 C18
 //@   implements MapLike.GetIterator
 
-//@ lemma[C14] kin_drop: forall s Seq, p Int, k U :: 0 <= p && p < len(s) ==> (kin(s[p:len(s)], k) <==> s[p] == k || kin(s[p+1:len(s)], k))
-//@ lemma[C14] kin_drop_all: forall s Seq, k U :: !kin(s[len(s):len(s)], k)
-//@ lemma[C14] kin_drop_none: forall s Seq, k U :: kin(s[0:len(s)], k) <==> kin(s, k)
+//@ lemma[C14] kin_drop: forall s Seq, p Int, q Int, n Int, k U :: { kin(s[p:n], k), s[q:n] } q == p + 1 && n == len(s) && 0 <= p && p < n ==> (kin(s[p:n], k) <==> s[p] == k || kin(s[q:n], k))
+//@ lemma[C14] kin_drop_all: forall s Seq, p Int, n Int, k U :: { kin(s[p:n], k) } p == n && n == len(s) ==> !kin(s[p:n], k)
+//@ lemma[C14] kin_drop_none: forall s Seq, p Int, n Int, k U :: { kin(s[p:n], k) } p == 0 && n == len(s) ==> (kin(s[p:n], k) <==> kin(s, k))
 
 // lastkey(s, i): no later association in s has the same key as s[i] (the one that wins in a constructor)
 //@ define lastkey(s, i, n) := forall j :: i < j && j < n ==> akey(s[j]) != akey(s[i])
@@ -902,9 +902,9 @@ package collection
 //@   ensures[C14] forall k U :: dom(result, k) ==> kmem(view(associations), k)
 //@   ensures[C14] forall i :: 0 <= i && i < len(view(associations)) ==> dom(result, akey(view(associations)[i])) && (lastkey(view(associations), i, len(view(associations))) ==> get(result, akey(view(associations)[i])) == aval(view(associations)[i]))
 
-//@ lemma[C14] kmem_snoc: forall s Seq, p Int, k U :: 0 <= p && p < len(s) ==> (kmem(s[0:p+1], k) <==> kmem(s[0:p], k) || akey(s[p]) == k)
-//@ lemma[C14] kmem_take_none: forall s Seq, k U :: !kmem(s[0:0], k)
-//@ lemma[C14] kmem_take_all: forall s Seq, k U :: kmem(s[0:len(s)], k) <==> kmem(s, k)
+//@ lemma[C14,C03,C16] kmem_snoc: forall s Seq, p Int, q Int, k U :: { kmem(s[0:q], k), s[0:p] } q == p + 1 && 0 <= p && p < len(s) ==> (kmem(s[0:q], k) <==> kmem(s[0:p], k) || akey(s[p]) == k)
+//@ lemma[C14,C03,C16] kmem_take_none: forall s Seq, p Int, k U :: { kmem(s[0:p], k) } p == 0 ==> !kmem(s[0:p], k)
+//@ lemma[C14,C03,C16] kmem_take_all: forall s Seq, p Int, k U :: { kmem(s[0:p], k) } p == len(s) ==> (kmem(s[0:p], k) <==> kmem(s, k))
 
 //@ func (*mapClass_).MakeFromArray
 //@   props C14 C18
@@ -977,6 +977,9 @@ package collection
 //@ lemma[C03,C16] kmem_append: forall s Seq, a U, k U :: kmem(s ++ single(a), k) <==> kmem(s, k) || akey(a) == k
 //@ lemma[C03,C16] kmem_remove: forall s Seq, p Int, k U :: 0 <= p && p < len(s) && ukeys(s) ==> (kmem(remove(s, p), k) <==> kmem(s, k) && k != akey(s[p]))
 //@ lemma[C03,C16] kwit_unique: forall s Seq, i Int :: ukeys(s) && 0 <= i && i < len(s) ==> kwit(s, akey(s[i])) == i
+//@ lemma[C03,C16] kwit_append_old: forall s Seq, a U, k U :: { kwit(s ++ single(a), k) } ukeys(s ++ single(a)) && kmem(s, k) ==> kwit(s ++ single(a), k) == kwit(s, k)
+//@ lemma[C03,C16] kwit_append_new: forall s Seq, a U :: { s ++ single(a) } ukeys(s ++ single(a)) ==> kwit(s ++ single(a), akey(a)) == len(s)
+//@ lemma[C03,C16,C14] kmem_take_elem: forall s Seq, p Int, i Int :: { s[0:p], akey(s[i]) } 0 <= i && i < p && p <= len(s) ==> kmem(s[0:p], akey(s[i]))
 //@ lemma[C03] kmem_perm: forall s Seq, t Seq, k U :: permof(s, t) ==> (kmem(s, k) <==> kmem(t, k))
 //@ lemma[C03] ukeys_perm: forall s Seq, t Seq :: permof(s, t) && ukeys(t) ==> ukeys(s)
 
@@ -996,8 +999,11 @@ package collection
 //@   nopanic
 //@   modifies view(this), aval(view(this)[kwit(view(this), key)])
 //@   ensures[C03] kmem(s, key) ==> view(this) == s && aval(s[kwit(s, key)]) == value
-//@   ensures[C03] !kmem(s, key) ==> len(view(this)) == n + 1 && view(this)[0:n] == s && fresh(view(this)[n]) && akey(view(this)[n]) == key && aval(view(this)[n]) == value
+//@   ensures[C03] !kmem(s, key) ==> len(view(this)) == n + 1 && view(this) == s ++ single(view(this)[n]) && fresh(view(this)[n]) && view(this)[n] != nil && akey(view(this)[n]) == key && aval(view(this)[n]) == value
 //@   ensures[C03] wellkeyed(s) ==> wellkeyed(view(this))
+//@   ensures[C03,C16] wellkeyed(s) ==> (forall k U :: kmem(view(this), k) <==> kmem(s, k) || k == key)
+//@   ensures[C03,C16] wellkeyed(s) ==> valof(view(this), key) == value
+//@   ensures[C03,C16] wellkeyed(s) ==> (forall k U :: k != key && kmem(s, k) ==> kwit(view(this), k) == kwit(s, k) && valof(view(this), k) == old(valof(view(this), k)))
 //@ iface CatalogLike.RemoveValue
 //@   let s := view(this)
 //@   nopanic
@@ -1028,7 +1034,7 @@ package collection
 //@ func (*catalog_).SetValue
 //@   props C03 C16
 //@   implements CatalogLike.SetValue
-//@   uses kmem_append, kwit_unique
+//@   uses kmem_append, kwit_unique, kwit_append_old, kwit_append_new
 //@ func (*catalog_).RemoveValue
 //@   props C03
 //@   implements CatalogLike.RemoveValue
@@ -1073,3 +1079,115 @@ package collection
 //@ func (*catalog_).GetIterator
 //@   props C03 C17 C18
 //@   implements Sequential.GetIterator
+
+// ---------------------------------------------------------------- catalog constructors, Merge, Extract (C03, C16)
+
+//@ define valof(s, k) := aval(s[kwit(s, k)])
+//@ define allfresh(s) := forall i :: 0 <= i && i < len(s) ==> fresh(s[i])
+//@ define nonnil(s) := forall i :: 0 <= i && i < len(s) ==> s[i] != nil
+// heap well-formedness: the elements of a sequence that exists at entry exist at entry
+//@ define allallocated(s) := forall i :: 0 <= i && i < len(s) ==> allocated(s[i])
+
+//@ iface CatalogClassLike.MakeFromSequence
+//@   let s := view(associations)
+//@   requires nonnil(view(associations))
+//@   nopanic
+//@   ensures[C03,C16,C18] fresh(result) && result != nil && wellkeyed(view(result)) && allfresh(view(result)) && unchanged(aval) && unchanged(view)
+//@   ensures[C03,C16] forall k U :: kmem(view(result), k) <==> kmem(s, k)
+//@   ensures[C03,C16] forall i :: 0 <= i && i < len(s) && lastkey(s, i, len(s)) ==> valof(view(result), akey(s[i])) == aval(s[i])
+//@   ensures[C03,C16] ukeys(s) ==> len(view(result)) == len(s) && (forall i :: 0 <= i && i < len(s) ==> akey(view(result)[i]) == akey(s[i]))
+//@ iface CatalogClassLike.MakeFromArray
+//@   let s := view(associations)
+//@   requires nonnil(view(associations))
+//@   nopanic
+//@   ensures[C03,C18] fresh(result) && result != nil && wellkeyed(view(result)) && allfresh(view(result)) && unchanged(aval) && unchanged(view)
+//@   ensures[C03] forall k U :: kmem(view(result), k) <==> kmem(s, k)
+//@   ensures[C03] forall i :: 0 <= i && i < len(s) && lastkey(s, i, len(s)) ==> valof(view(result), akey(s[i])) == aval(s[i])
+//@   ensures[C03] ukeys(s) ==> len(view(result)) == len(s) && (forall i :: 0 <= i && i < len(s) ==> akey(view(result)[i]) == akey(s[i]))
+
+//@ func (*catalogClass_).MakeFromSequence
+//@   props C03 C16 C18
+//@   implements CatalogClassLike.MakeFromSequence
+//@   assumes allallocated(view(associations))
+//@   uses kmem_snoc, kmem_take_none, kmem_take_all, kmem_take_elem
+//@   let s := view(associations)
+//@   loop 1:
+//@     invariant snap(iterator) == s && 0 <= pos(iterator) && pos(iterator) <= len(s) && catalog != nil && fresh(catalog) && view(associations) == s
+//@     invariant wellkeyed(view(catalog)) && allfresh(view(catalog)) && unchanged(aval) && unchanged(view)
+//@     invariant forall k U :: kmem(view(catalog), k) <==> kmem(s[0:pos(iterator)], k)
+//@     invariant forall i :: 0 <= i && i < pos(iterator) && lastkey(s, i, pos(iterator)) ==> valof(view(catalog), akey(s[i])) == aval(s[i])
+//@     invariant ukeys(s) ==> len(view(catalog)) == pos(iterator) && (forall i :: 0 <= i && i < pos(iterator) ==> akey(view(catalog)[i]) == akey(s[i]))
+//@     decreases len(s) - pos(iterator)
+//@ func (*catalogClass_).MakeFromArray
+//@   props C03 C18
+//@   implements CatalogClassLike.MakeFromArray
+
+//@ iface CatalogClassLike.Merge
+//@   let f := view(first)
+//@   let s := view(second)
+//@   requires wellkeyed(view(first)) && wellkeyed(view(second))
+//@   nopanic
+//@   ensures[C16,C18] fresh(result) && result != nil && wellkeyed(view(result)) && allfresh(view(result)) && unchanged(aval) && unchanged(view)
+//@   ensures[C16] forall k U :: kmem(view(result), k) <==> kmem(f, k) || kmem(s, k)
+//@   ensures[C16] len(view(result)) >= len(f) && (forall i :: 0 <= i && i < len(f) ==> akey(view(result)[i]) == akey(f[i]))
+//@   ensures[C16] forall k U :: kmem(s, k) ==> valof(view(result), k) == valof(s, k)
+//@   ensures[C16] forall k U :: kmem(f, k) && !kmem(s, k) ==> valof(view(result), k) == valof(f, k)
+//@   ensures[C16] forall p :: len(f) <= p && p < len(view(result)) ==> kmem(s, akey(view(result)[p])) && !kmem(f, akey(view(result)[p]))
+//@   ensures[C16] forall p, q :: len(f) <= p && p < q && q < len(view(result)) ==> kwit(s, akey(view(result)[p])) < kwit(s, akey(view(result)[q]))
+
+//@ func (*catalogClass_).Merge
+//@   props C16 C18
+//@   implements CatalogClassLike.Merge
+//@   uses kmem_snoc, kmem_take_none, kmem_take_all, kmem_take_elem, kwit_unique
+//@   assumes allallocated(view(first)) && allallocated(view(second))
+//@   let f := view(first)
+//@   let s := view(second)
+//@   loop 1:
+//@     invariant snap(iterator) == s && 0 <= pos(iterator) && pos(iterator) <= len(s) && catalog != nil && fresh(catalog) && view(first) == f && view(second) == s
+//@     invariant wellkeyed(view(catalog)) && allfresh(view(catalog)) && unchanged(aval) && unchanged(view)
+//@     invariant forall k U :: kmem(view(catalog), k) <==> kmem(f, k) || kmem(s[0:pos(iterator)], k)
+//@     invariant len(view(catalog)) >= len(f) && (forall i :: 0 <= i && i < len(f) ==> akey(view(catalog)[i]) == akey(f[i]))
+//@     invariant forall i :: 0 <= i && i < pos(iterator) ==> valof(view(catalog), akey(s[i])) == aval(s[i])
+//@     invariant forall k U :: kmem(f, k) && !kmem(s[0:pos(iterator)], k) ==> valof(view(catalog), k) == valof(f, k)
+//@     invariant forall p :: len(f) <= p && p < len(view(catalog)) ==> kmem(s[0:pos(iterator)], akey(view(catalog)[p])) && !kmem(f, akey(view(catalog)[p]))
+//@     invariant forall p, q :: len(f) <= p && p < q && q < len(view(catalog)) ==> kwit(s, akey(view(catalog)[p])) < kwit(s, akey(view(catalog)[q]))
+//@     decreases len(s) - pos(iterator)
+
+//@ lemma[C16] kin_snoc: forall s Seq, p Int, q Int, k U :: { kin(s[0:q], k), s[0:p] } q == p + 1 && 0 <= p && p < len(s) ==> (kin(s[0:q], k) <==> kin(s[0:p], k) || s[p] == k)
+//@ lemma[C16] kin_take_none: forall s Seq, p Int, k U :: { kin(s[0:p], k) } p == 0 ==> !kin(s[0:p], k)
+//@ lemma[C16] kin_take_all: forall s Seq, p Int, k U :: { kin(s[0:p], k) } p == len(s) ==> (kin(s[0:p], k) <==> kin(s, k))
+
+//@ iface CatalogClassLike.Extract
+//@   let c := view(catalog)
+//@   let ks := view(keys)
+//@   requires wellkeyed(view(catalog))
+//@   nopanic
+//@   ensures[C16,C18] fresh(result) && result != nil && wellkeyed(view(result)) && allfresh(view(result)) && unchanged(aval) && unchanged(view)
+//@   ensures[C16] forall k U :: kmem(view(result), k) <==> kmem(c, k) && kin(ks, k)
+//@   ensures[C16] forall k U :: kmem(view(result), k) ==> valof(view(result), k) == valof(c, k)
+//@   ensures[C16] distinct(ks) ==> (forall p, q :: 0 <= p && p < q && q < len(view(result)) ==> kinw(ks, akey(view(result)[p])) < kinw(ks, akey(view(result)[q])))
+
+//@ lemma[C16] kinw_unique: forall s Seq, i Int :: { s[i] } distinct(s) && 0 <= i && i < len(s) ==> kinw(s, s[i]) == i
+//@ lemma[C16] kin_take_elem: forall s Seq, p Int, i Int :: { s[0:p], s[i] } 0 <= i && i < p && p <= len(s) ==> kin(s[0:p], s[i])
+
+//@ func (*catalogClass_).Extract
+//@   props C16 C18
+//@   implements CatalogClassLike.Extract
+//@   uses kmem_snoc, kmem_take_none, kmem_take_all, kmem_take_elem, kin_snoc, kin_take_none, kin_take_all, kinw_unique, kin_take_elem, kwit_unique
+//@   assumes allallocated(view(catalog))
+//@   let c := view(catalog)
+//@   let ks := view(keys)
+//@   loop 1:
+//@     invariant snap(associations) == c && 0 <= pos(associations) && pos(associations) <= len(c) && present != nil && fresh(present) && view(catalog) == c && view(keys) == ks
+//@     invariant forall k U :: dom(present, k) <==> kmem(c[0:pos(associations)], k)
+//@     invariant forall k U :: dom(present, k) ==> unboxBool(get(present, k))
+//@     decreases len(c) - pos(associations)
+//@   loop 2:
+//@     invariant snap(iterator) == ks && 0 <= pos(iterator) && pos(iterator) <= len(ks) && result != nil && fresh(result) && view(catalog) == c && view(keys) == ks && present != nil
+//@     invariant (forall k U :: dom(present, k) <==> kmem(c, k)) && (forall k U :: dom(present, k) ==> unboxBool(get(present, k)))
+//@     invariant wellkeyed(view(result)) && allfresh(view(result)) && unchanged(aval) && unchanged(view)
+//@     invariant forall k U :: kmem(view(result), k) <==> kmem(c, k) && kin(ks[0:pos(iterator)], k)
+//@     invariant forall k U :: kmem(view(result), k) ==> valof(view(result), k) == valof(c, k)
+//@     invariant distinct(ks) ==> (forall p :: 0 <= p && p < len(view(result)) ==> kinw(ks, akey(view(result)[p])) < pos(iterator))
+//@     invariant distinct(ks) ==> (forall p, q :: 0 <= p && p < q && q < len(view(result)) ==> kinw(ks, akey(view(result)[p])) < kinw(ks, akey(view(result)[q])))
+//@     decreases len(ks) - pos(iterator)
